@@ -101,7 +101,8 @@ Ent(n, sup, abs, sx, attrs) == [name |-> n, supers |-> sup, abstract |-> abs, se
                                 derive |-> <<>>, inverse |-> <<>>, uniq |-> <<>>, where |-> <<>>, redecl |-> <<>>]
 Supers(c, e) ==
   CASE c.inh \in {"none", "single", "noents"} -> <<>>
-    [] c.inh \in {"chain", "redecl"} -> IF e = "e2" THEN <<"e1">> ELSE IF e = "e3" THEN <<"e2">> ELSE <<>>
+    [] c.inh = "chain" -> IF e = "e2" THEN <<"e1">> ELSE IF e = "e3" THEN <<"e2">> ELSE <<>>
+    [] c.inh = "redecl" -> IF e = "e2" THEN <<"e1">> ELSE IF e = "e3" THEN <<"e2">> ELSE IF e = "e4" THEN <<"e3">> ELSE <<>>
     [] c.inh = "multi"   -> IF e = "e2" THEN <<"e1">> ELSE IF e = "e3" THEN <<"e1">> ELSE IF e = "e4" THEN <<"e2", "e3">> ELSE <<>>
     [] c.inh = "fan"     -> IF e \in {"e2", "e3"} THEN <<"e1">> ELSE <<>>
     \* two separate trees joined at the bottom: e2 below e1, e3 below r2, e4 below both; h refers to both roots
@@ -115,7 +116,8 @@ RootExpr(c) ==
 Names0(c) == IF c.inh = "multi" THEN <<"e1", "e2", "e3", "e4">>
             ELSE IF c.inh = "tworoots" THEN <<"e1", "e2", "r2", "e3", "e4", "h">>
             ELSE IF c.inh = "nestedmi" THEN <<"e1", "e2", "r2", "r3", "e3", "e4", "e5", "h">>
-            ELSE IF c.inh = "single" THEN <<"e1">> ELSE IF c.inh = "noents" THEN <<>> ELSE <<"e1", "e2", "e3">>
+            ELSE IF c.inh = "single" THEN <<"e1">> ELSE IF c.inh = "noents" THEN <<>>
+            ELSE IF c.inh = "redecl" THEN <<"e1", "e2", "e3", "e4">> ELSE <<"e1", "e2", "e3">>
 (* with rules: also an entity without supertype and without explicit attribute whose only attribute is an INVERSE one *)
 (* (tgt0), and the entity it is used by (usr0)                                                                      *)
 Names(c) == Names0(c) \o (IF c.rules THEN <<"tgt0", "usr0">> ELSE <<>>)
@@ -133,7 +135,12 @@ WithRules(c, e) ==
 (* ... and redeclares the OPTIONAL attribute b2 as a required one (a redeclaration may narrow OPTIONAL away)          *)
 WithRedecl(c, e) == IF c.inh = "redecl" /\ e.name = "e3"
                     THEN [e EXCEPT !.redecl = <<[name |-> "b1", of |-> "e2", ty |-> T("e2"), opt |-> FALSE],
-                                                [name |-> "b2", of |-> "e2", ty |-> T("STRING"), opt |-> FALSE]>>] ELSE e
+                                                [name |-> "b2", of |-> "e2", ty |-> T("STRING"), opt |-> FALSE]>>]
+                    \* e4 has no attribute of its own and redeclares e3's last attribute as derived: in an exchange file the
+                    \* slot is still there and holds `*` - the parameter list of an e4 instance ends with it
+                    ELSE IF c.inh = "redecl" /\ e.name = "e4"
+                    THEN [e EXCEPT !.derive = <<[name |-> "SELF\\e3.c1", ty |-> T("BOOLEAN"), expr |-> "TRUE"]>>, !.attrs = <<>>]
+                    ELSE e
 Valid0(c) ==
   [name |-> "m",
    types |-> Types(c) \o (IF c.inh = "single" THEN SelectSeq(ExtraTypes(c.ts), LAMBDA t : t.name # "lst_sel") ELSE ExtraTypes(c.ts)),
@@ -345,10 +352,13 @@ Dev_PyCtorRepeatsSharedAncestor(s, n) ==
 (* Dev_PyRedeclaredIsOwnParameter: a redeclared attribute (SELF\e2.b1 : e2) is generated like an attribute of the       *)
 (* redeclaring entity: the constructor takes it once more, after the inherited parameters and before the entity's own,  *)
 (* so the parameter list is not the Part 21 order.  PyRedeclParams predicts the exact list.                              *)
-Dev_PyRedeclaredIsOwnParameter(s, n) == Len(EntByName(s, n).redecl) > 0
-PyRedeclParams(s, n) == LET e == EntByName(s, n)
-                            o == AttrOrder(s, n)
-                            inh == SubSeq(o, 1, Len(o) - Len(e.attrs))
-                        IN [j \in 1..Len(inh) |-> PyName(inh[j].name)] \o [j \in 1..Len(e.redecl) |-> PyName(e.redecl[j].name)]
-                           \o [j \in 1..Len(e.attrs) |-> PyName(e.attrs[j].name)]
+RECURSIVE HasRedecl(_, _), PyCtorRaw(_, _)
+HasRedecl(s, n) == LET e == EntByName(s, n) IN Len(e.redecl) > 0 \/ \E i \in 1..Len(e.supers) : HasRedecl(s, e.supers[i])
+(* (the deviation is inherited: a subclass hands its base the base's whole parameter list) *)
+Dev_PyRedeclaredIsOwnParameter(s, n) == HasRedecl(s, n)
+PyCtorRaw(s, n) == LET e == EntByName(s, n)
+                       RECURSIVE Cat(_)
+                       Cat(i) == IF i > Len(e.supers) THEN <<>> ELSE PyCtorRaw(s, e.supers[i]) \o Cat(i + 1)
+                   IN Cat(1) \o [j \in 1..Len(e.redecl) |-> PyName(e.redecl[j].name)] \o [j \in 1..Len(e.attrs) |-> PyName(e.attrs[j].name)]
+PyRedeclParams(s, n) == PyCtorRaw(s, n)
 =============================================================================
